@@ -1,18 +1,21 @@
 CONSTANTS
   Vals = {1, 2, 3}
-  Claims = {1, 2, 3, 4, 5, 6, 7, 8}
+  Claims = {1, 2, 3}
   CNonce <- NonceF
   CHash <- HashF
   CEff <- EffF
   CCompass <- CompassF
   CApplicable <- ApplF
   CHeight <- HeightF
-  Powers = {0, 10, 34, 70}
+  Powers = {}
   InitPower <- Pow3
-  MaxNonce = 3
-  MaxEpoch = 100
-  MaxVotes = 100
-INIT TraceInit
-NEXT TraceNext
-POSTCONDITION TraceAccepted
+  MaxNonce = 1
+  MaxEpoch = 1
+  MaxVotes = 6
+  EmitAt = 0
+  MaxOps = 10
+INIT GInit
+NEXT GNextR
+VIEW GView
+CONSTRAINT GConstr
 CHECK_DEADLOCK FALSE
